@@ -23,6 +23,9 @@ pub struct LoopCfg {
     pub auth: bool,
     /// 2 = outer service whose backend is a Proxy into a second service + recorder
     pub hops: u8,
+    /// a custom route is installed that matches none of the requests (it must change nothing)
+    #[serde(default)]
+    pub route: bool,
 }
 
 pub const L_AK: &str = "AKIDVERIFLOOP0000001";
@@ -40,13 +43,13 @@ impl LoopCfg {
                 HostCfg::Multi(d) => format!("multi{}", d.len()),
             },
             if self.auth { "auth" } else { "noauth" },
-            if self.hops == 2 { "/2hops" } else { "" }
+            if self.hops == 2 { "/2hops" } else if self.route { "/unrelated-route" } else { "" }
         )
     }
     pub fn svc_cfg(&self) -> SvcCfg {
         let mut keys = HashMap::new();
         keys.insert(L_AK.to_owned(), L_SK.to_owned());
-        SvcCfg { host: self.host.clone(), keys: if self.auth { Some(keys) } else { None }, access: None, route: None }
+        SvcCfg { host: self.host.clone(), keys: if self.auth { Some(keys) } else { None }, access: None, route: if self.route { Some((RoutePolicy::Never, false, false)) } else { None } }
     }
     pub fn client_cfg(&self) -> ClientCfg {
         ClientCfg { access_key: L_AK.into(), secret: L_SK.into(), region: "us-east-1".into(), endpoint: format!("http://{L_DOMAIN}"), path_style: !self.vhost, anonymous: !self.auth }
@@ -57,12 +60,15 @@ impl LoopCfg {
         let single = HostCfg::Single(L_DOMAIN.into());
         let mut v = Vec::new();
         for auth in [false, true] {
-            v.push(LoopCfg { host: HostCfg::None, vhost: false, auth, hops: 1 });
-            v.push(LoopCfg { host: single.clone(), vhost: false, auth, hops: 1 });
-            v.push(LoopCfg { host: single.clone(), vhost: true, auth, hops: 1 });
-            v.push(LoopCfg { host: multi.clone(), vhost: true, auth, hops: 1 });
-            v.push(LoopCfg { host: multi.clone(), vhost: false, auth, hops: 1 });
+            v.push(LoopCfg { host: HostCfg::None, vhost: false, auth, hops: 1, route: false });
+            v.push(LoopCfg { host: single.clone(), vhost: false, auth, hops: 1, route: false });
+            v.push(LoopCfg { host: single.clone(), vhost: true, auth, hops: 1, route: false });
+            v.push(LoopCfg { host: multi.clone(), vhost: true, auth, hops: 1, route: false });
+            v.push(LoopCfg { host: multi.clone(), vhost: false, auth, hops: 1, route: false });
         }
+        // a custom route that matches nothing must change nothing
+        v.push(LoopCfg { host: HostCfg::None, vhost: false, auth: true, hops: 1, route: true });
+        v.push(LoopCfg { host: single.clone(), vhost: true, auth: false, hops: 1, route: true });
         v
     }
 }
